@@ -17,10 +17,26 @@ one (or more) implementation test against the real code:
                  reports cwd, environment block, terminal size, ECHO flag and SIGHUP
                  disposition.
 
+spec/LaunchHist.tla (on top of Launch.tla) holds two more parts:
+
+ (d) HistSpec    lookups over a HISTORY: the file system changes between lookups (an entry
+                 appears, disappears, gains / loses its x bit, becomes a directory, in an
+                 earlier or later PATH directory) while the PATH string stays the same, several
+                 names in one process.  The state keeps what the previous lookup of each name
+                 returned.  TLC's state graph is dumped; walks that together take every Lookup
+                 transition are replayed in this process on a real tree: which() at every
+                 Lookup, and a sample of them through spawn / run / PopenSpawn (the child says
+                 which file it is).  The expected answer of a step is TLC's successor state.
+ (e) CwdSpec     the cwd argument as a path (relative / absolute, '.', '..', trailing slash,
+                 symbolic links, '..' after a link whose target has another parent, a caller
+                 standing in a directory it entered through a link); the kernel's resolution as
+                 a machine.  Every case: spawn / run / PopenSpawn from the caller's directory,
+                 the child reports the directory it is in.
+
 The expected value of every test comes out of TLC (the tables are written by ASSUMEs of the
-module that TLC has just model-checked).
+module that TLC has just model-checked; for (d) the dumped state graph).
 """
-import collections, json, os, random, shutil, signal, stat, sys, time
+import collections, copy, json, os, random, shutil, signal, stat, sys, tempfile, time
 import multiprocessing
 from concurrent.futures import ThreadPoolExecutor, ProcessPoolExecutor
 
@@ -28,7 +44,7 @@ import pexpect
 import pexpect.utils
 from pexpect import popen_spawn
 
-from .. import tlc, evidence, common
+from .. import tlc, evidence, common, stategraph
 
 PEERS = os.path.join(os.path.dirname(os.path.dirname(os.path.abspath(__file__))), 'peers')
 
@@ -40,6 +56,11 @@ REPS = {
 SPLIT_ACTIONS = ['AddArgument', 'Present', 'BeginEscape', 'OpenSingle', 'OpenDouble', 'EndArgument', 'SkipWhite',
                  'PlainChar', 'EscapedChar', 'InSingle', 'CloseSingle', 'InDouble', 'CloseDouble', 'Finish']
 WHICH_ACTIONS = ['ExplicitHit', 'ExplicitMiss', 'ChoosePath', 'SkipEntry', 'TakeEntry', 'Exhausted']
+HIST_ACTIONS = ['Mutate', 'Lookup']
+HIST_INVS = ['HistTypeOK', 'HistFirstMatch', 'HistOnlyExecutables', 'HistNothingEarlier', 'HistNoneMeansNone']
+CWD_ACTIONS = ['CwdDot', 'CwdUp', 'CwdFollow', 'CwdEnter', 'CwdMissing']
+CWD_INVS = ['CwdTypeOK', 'CwdAsRequested', 'CwdMachineIsWalk', 'CwdSlashIrrelevant']
+TMP_PREFIX = 'verif-C13-'          # the trees of parts (d) and (e) live in fresh directories of the default tmp dir
 SPLIT_INVS = ['SplitTypeOK', 'RoundTrip', 'PrefixSoFar', 'EndsOutside', 'MachineIsSplit', 'CaseInTable']
 PROG = 'prog'
 SPAWN_TIMEOUT = 30
@@ -63,7 +84,8 @@ class Rec(object):
 
     @staticmethod
     def size(detail):
-        return len((detail or {}).get('command_line', ''))
+        d = detail or {}
+        return d['size'] if 'size' in d else len(d.get('command_line', ''))
 
     def fail(self, clause, case, detail=None, signature=None):
         key = (clause, json.dumps(signature or {}, sort_keys=True))
@@ -510,6 +532,420 @@ def config_row(r, bench, rec, stats, ctx=None):
 
 
 # ---------------------------------------------------------------------------------------------
+# (d) lookups over a history
+
+RUN_MOD = sys.modules['pexpect.run']
+HIST_VIAS = ('spawn', 'run', 'popen')
+
+
+class _PromptClose(pexpect.spawn):
+    """pexpect.spawn itself; only close() first waits for the child that has already hung up, so that
+    the 0.1 s pause ptyprocess makes before looking whether the child is gone is not needed (what
+    run_pty does for a spawn of its own; pexpect.run() closes its child itself)"""
+
+    def close(self, force=True):
+        if not self.closed and getattr(self, 'ptyproc', None) is not None:
+            try:
+                self.wait()
+            except pexpect.ExceptionPexpect:
+                pass
+            self.ptyproc.delayafterclose = 0
+        return pexpect.spawn.close(self, force)
+
+
+def run_run(command, **kw):
+    """pexpect.run() to the child's end of file; returns None or the exception text"""
+    saved = RUN_MOD.spawn
+    RUN_MOD.spawn = _PromptClose
+    try:
+        pexpect.run(command, timeout=SPAWN_TIMEOUT, withexitstatus=True, **kw)
+    except pexpect.ExceptionPexpect as e:
+        return 'ExceptionPexpect: %s' % e
+    except Exception as e:
+        return '%s: %s' % (type(e).__name__, e)
+    finally:
+        RUN_MOD.spawn = saved
+    return None
+
+
+def launch_via(via, command, **kw):
+    if via == 'spawn':
+        return run_pty(command, **kw)
+    if via == 'run':
+        return run_run(command, **kw)
+    return run_popen([command], **kw)
+
+
+def read_report(path):
+    if not os.path.exists(path):
+        return None
+    raw = open(path, 'rb').read().split(b'\0')
+    return [x.decode('utf-8', 'surrogateescape') for x in raw[:-1]]
+
+
+class HistWorld(object):
+    """the file system of HistSpec in a fresh temporary directory: PATH directories d1..dn (created once:
+    the PATH string is the same for every lookup of a walk), the entries of the model's `fs`, and a decoy
+    directory of executables on the source that must not be consulted"""
+
+    def __init__(self, ndirs, names, fs, env_given):
+        self.root = os.path.realpath(tempfile.mkdtemp(prefix=TMP_PREFIX + 'hist-'))
+        self.dirs = [os.path.join(self.root, 'd%d' % (i + 1)) for i in range(ndirs)]
+        self.names = list(names)
+        self.out = os.path.join(self.root, 'report')
+        self.decoy = os.path.join(self.root, 'decoy')
+        os.mkdir(os.path.join(self.root, 'tg'))
+        os.mkdir(self.decoy)
+        for d in self.dirs:
+            os.mkdir(d)
+        for n in self.names:
+            self.script(os.path.join(self.decoy, self.filename(n)), 'decoy-' + n, 0o755)
+        self.pathvalue = os.pathsep.join(self.dirs)
+        if env_given:
+            self.env = {'PATH': self.pathvalue, 'VERIF_PROBE_OUT': self.out}
+            self.environ_path = self.decoy
+        else:
+            self.env = None
+            self.environ_path = self.pathvalue
+        for d in range(1, ndirs + 1):
+            for n in self.names:
+                self.set(d, n, 'missing', fs[d - 1][n])
+
+    @staticmethod
+    def filename(n):
+        return 'prog-' + n
+
+    def path(self, d, n):
+        return os.path.join(self.dirs[d - 1], self.filename(n))
+
+    def tag(self, d, n):
+        return 'd%d-%s' % (d, n)
+
+    @staticmethod
+    def script(p, tag, mode):
+        with open(p, 'w') as f:
+            f.write(SCRIPT % tag)
+        os.chmod(p, mode)
+
+    def set(self, d, n, old, new):
+        """the model's Mutate(d, n, new)"""
+        p = self.path(d, n)
+        if old in ('file', 'exec') and new in ('file', 'exec'):
+            os.chmod(p, 0o755 if new == 'exec' else 0o644)       # gains / loses the x bit: the file stays the file
+            return
+        if old == 'dir':
+            os.rmdir(p)
+        elif old != 'missing':
+            os.unlink(p)
+        if new == 'dir':
+            os.mkdir(p)
+        elif new in ('file', 'exec'):
+            self.script(p, self.tag(d, n), 0o755 if new == 'exec' else 0o644)
+        elif new == 'ln_exec':
+            t = os.path.join(self.root, 'tg', self.tag(d, n))
+            self.script(t, self.tag(d, n), 0o755)
+            os.symlink(t, p)
+        elif new != 'missing':
+            raise tlc.TLCError('HistWorld: unknown kind %r' % new)
+
+    def __enter__(self):
+        self.saved = (os.environ.get('PATH'), os.defpath, os.environ.get('VERIF_PROBE_OUT'))
+        os.environ['PATH'] = self.environ_path
+        os.environ['VERIF_PROBE_OUT'] = self.out
+        os.defpath = self.decoy
+        return self
+
+    def __exit__(self, *a):
+        path, defpath, po = self.saved
+        for k, v in (('PATH', path), ('VERIF_PROBE_OUT', po)):
+            if v is None:
+                os.environ.pop(k, None)
+            else:
+                os.environ[k] = v
+        os.defpath = defpath
+
+    def close(self):
+        shutil.rmtree(self.root, ignore_errors=True)
+
+
+def hist_text(steps):
+    """a walk as one line: 'd1/a:=exec  which(a)->2 ...'"""
+    out = []
+    for s in steps:
+        if s['op'] == 'mutate':
+            out.append('d%d/%s:=%s' % (s['d'], s['n'], s['k']))
+        else:
+            out.append('%s(%s)->%s' % (s['via'], s['n'], 'none' if s['want'] == 0 else 'd%d' % s['want']))
+    return '  '.join(out)
+
+
+def hist_walk(walk, rec, stats):
+    """replays one behaviour of HistSpec in this process: every Mutate on the tree, every Lookup on which() or through
+    a child; the expected answer of a lookup is the model's (first match on the layout at the time of the call)"""
+    steps = walk['steps']
+    w = HistWorld(walk['ndirs'], walk['names'], walk['init'], walk['envGiven'])
+    try:
+        with w:
+            fs = copy.deepcopy(walk['init'])
+            for i, s in enumerate(steps):
+                n = s['n']
+                if s['op'] == 'mutate':
+                    w.set(s['d'], n, fs[s['d'] - 1][n], s['k'])
+                    fs[s['d'] - 1][n] = s['k']
+                    continue
+                exp = w.path(s['want'], n) if s['want'] > 0 else None
+                via = s['via']
+
+                def describe(extra):
+                    d = {'name': w.filename(n), 'via': via, 'PATH (same string for the whole walk)': 'd1' + ''.join(
+                             ':d%d' % (k + 2) for k in range(len(w.dirs) - 1)) + ' under ' + w.root,
+                         'PATH_given_by': 'env argument' if walk['envGiven'] else 'os.environ',
+                         'layout_at_the_time_of_the_call': fs,
+                         'previous_answer_for_this_name': {-1: 'never looked up', 0: 'none'}.get(s['last'], 'd%d' % s['last']),
+                         'want': exp, 'history': hist_text(steps[:i + 1]), 'size': i + 1}
+                    d.update(extra)
+                    return d
+                sig = {'part': 'which-history', 'via': via, 'envGiven': walk['envGiven'],
+                       'previous': 'never' if s['last'] < 0 else ('none' if s['last'] == 0 else 'found'),
+                       'want': 'none' if s['want'] == 0 else 'found', 'same_as_previous': s['last'] == s['want']}
+                case = {'kind': 'whichhist', 'walk': dict(walk, steps=steps[:i + 1])}
+                if via == 'which':
+                    stats['evaluations'] += 1
+                    try:
+                        got = pexpect.utils.which(w.filename(n), env=w.env)
+                    except Exception as e:                      # noqa
+                        got = '%s: %s' % (type(e).__name__, e)
+                    if got != exp:
+                        rec.fail('C13:which-history', case, detail=describe({'got': got}), signature=sig)
+                    continue
+
+                def once():
+                    stats['evaluations'] += 1
+                    try:
+                        os.unlink(w.out)
+                    except OSError:
+                        pass
+                    err = launch_via(via, w.filename(n), env=w.env)
+                    rep = read_report(w.out)
+                    if exp is None:
+                        if err is None or rep is not None:
+                            return {'want': 'no executable on PATH now: the launch must be refused', 'raised': err, 'child_report': rep}
+                        return None
+                    if err is not None:
+                        return {'raised': err}
+                    if rep is None or rep[0] != w.tag(s['want'], n) or (via != 'popen' and rep[1] != exp):
+                        return {'child_report [tag, $0]': rep, 'want_tag': w.tag(s['want'], n)}
+                    return None
+                bad = stable(once)
+                if bad is not None:
+                    rec.fail('C13:which-history-child', case, detail=describe(bad), signature=sig)
+    finally:
+        w.close()
+
+
+def fs_key(fs):
+    return json.dumps(fs, sort_keys=True)
+
+
+def hist_walks(dot, rng, budget, maxlen):
+    """Walks over TLC's dumped state graph of HistSpec that together take every Lookup transition (a transition is
+    identified by layout, previous answers and name; `hlook`, which only serves the invariants, is projected away).
+    Each walk starts in an initial state (nothing looked up yet: it is replayed on a tree - and PATH string - of its
+    own) and is at most about `maxlen` steps long.  `budget` Lookup transitions are additionally taken through a
+    launch (spawn / run / PopenSpawn), most of them where the layout changed the answer since the previous lookup.
+    Returns (walks, facts)."""
+    g = stategraph.Graph(dot)
+    nodes = g.nodes
+    if not g.init or not nodes:
+        raise tlc.TLCError('Launch/history: empty state graph in %s' % dot)
+    any_node = nodes[g.init[0]]
+    names = sorted(any_node['last'])
+    ndirs = len(any_node['fs'])
+    pk = {nid: (fs_key(st['fs']), tuple(st['last'][n] for n in names)) for nid, st in nodes.items()}
+    look = {}
+    adj = {}
+    for nid, es in g.edges.items():
+        lst = []
+        for label, dst in es:
+            name, args = stategraph.parse_action(label)
+            if name == 'Lookup':
+                look.setdefault(nid, {})[args[0]] = dst
+                lst.append((('L', args[0]), dst))
+            elif name == 'Mutate':
+                lst.append((('M', args[0], args[1], args[2]), dst))
+            else:
+                raise tlc.TLCError('Launch/history: unexpected action %r in the state graph' % label)
+        adj[nid] = lst
+    want = {}
+    for nid in nodes:
+        for n in names:
+            want[(pk[nid], n)] = nodes[look[nid][n]]['last'][n]
+    targets = sorted(want)
+    # the transitions that are also taken through a launch
+    def previous(t):
+        return t[0][1][names.index(t[1])]
+    changed = [t for t in targets if previous(t) >= 0 and previous(t) != want[t]]
+    same = [t for t in targets if previous(t) >= 0 and previous(t) == want[t]]
+    first = [t for t in targets if previous(t) < 0]
+    chosen = []
+    for lst, share in ((changed, 0.6), (same, 0.2), (first, 0.2)):
+        k = min(len(lst), int(budget * share + 0.5)) if budget < len(targets) else len(lst)
+        chosen += rng.sample(lst, k)
+    via_of = {t: HIST_VIAS[i % len(HIST_VIAS)] for i, t in enumerate(chosen)}
+    init_of = {fs_key(nodes[nid]['fs']): nid for nid in g.init}
+    uncovered = set(targets)
+
+    def step_of(edge, src, dst, via='which'):
+        if edge[0] == 'M':
+            return {'op': 'mutate', 'd': edge[1], 'n': edge[2], 'k': edge[3]}
+        n = edge[1]
+        uncovered.discard((pk[src], n))
+        return {'op': 'lookup', 'via': via, 'n': n, 'last': nodes[src]['last'][n], 'want': nodes[dst]['last'][n]}
+
+    def nearest(src):
+        """shortest path (list of (edge, dst)) to a state with a Lookup transition not yet taken"""
+        seen = {src}
+        frontier = [(src, None)]
+        back = {}
+        while frontier:
+            nxt = []
+            for nid, _ in frontier:
+                for edge, dst in adj[nid]:
+                    if dst in seen:
+                        continue
+                    seen.add(dst)
+                    back[dst] = (nid, edge)
+                    if any((pk[dst], n) in uncovered for n in names):
+                        path = []
+                        cur = dst
+                        while cur != src:
+                            prev, e = back[cur]
+                            path.append((prev, e, cur))
+                            cur = prev
+                        return path[::-1]
+                    nxt.append((dst, None))
+            frontier = nxt
+        return None
+    walks = []
+    cur_fs = fs_key([{n: 'missing' for n in names} for _ in range(ndirs)])
+    while uncovered:
+        nid = init_of[cur_fs]
+        steps = []
+        while len(steps) < maxlen:
+            here = [n for n in names if (pk[nid], n) in uncovered]
+            if here:
+                n = rng.choice(here)
+                t = (pk[nid], n)
+                vias = ['which'] + ([via_of[t]] if t in via_of else [])
+                rng.shuffle(vias)          # a launch is sometimes the first lookup in that state, sometimes the second
+                for via in vias:
+                    dst = look[nid][n]
+                    steps.append(step_of(('L', n), nid, dst, via))
+                    nid = dst
+                continue
+            path = nearest(nid)
+            if path is None or (steps and len(steps) + len(path) > maxlen):
+                break
+            for src, edge, dst in path:
+                steps.append(step_of(edge, src, dst))
+            nid = path[-1][2]
+        if not steps:
+            raise tlc.TLCError('Launch/history: %d Lookup transitions cannot be reached from an initial state' % len(uncovered))
+        init_fs = json.loads(cur_fs)
+        walks.append({'ndirs': ndirs, 'names': names, 'envGiven': len(walks) % 2 == 0, 'init': init_fs, 'steps': steps})
+        cur_fs = fs_key(nodes[nid]['fs'])
+    facts = {'states': len(nodes), 'edges': g.n_edges(), 'lookup_transitions': len(targets), 'answer_changed': len(changed),
+             'answer_same': len(same), 'first_lookup': len(first), 'launched': len(via_of), 'ndirs': ndirs, 'names': names,
+             'kinds': sorted(set(k for st in nodes.values() for d in st['fs'] for k in d.values()))}
+    return walks, facts
+
+
+# ---------------------------------------------------------------------------------------------
+# (e) the cwd argument as a path
+
+class CwdWorld(object):
+    """the world of CwdSpec under a fresh temporary directory; every directory holds a marker with its name in the model"""
+    LAYOUT = 'U/top=T U/top/real=R U/top/real/sub=S U/top/other=O; U/top/other/link -> ../real/sub; U/top/lnreal -> real'
+
+    def __init__(self):
+        self.base = os.path.realpath(tempfile.mkdtemp(prefix=TMP_PREFIX + 'cwd-'))
+        self.out = os.path.join(self.base, 'report')
+        self.probe = os.path.join(self.base, 'bin', 'cwdprobe')
+        os.mkdir(os.path.join(self.base, 'bin'))
+        shutil.copyfile(os.path.join(PEERS, 'cwd_probe.sh'), self.probe)
+        os.chmod(self.probe, 0o755)
+        u = os.path.join(self.base, 'U')
+        self.node = {'U': u, 'T': os.path.join(u, 'top'), 'R': os.path.join(u, 'top', 'real'),
+                     'S': os.path.join(u, 'top', 'real', 'sub'), 'O': os.path.join(u, 'top', 'other')}
+        for k in ('U', 'T', 'R', 'S', 'O'):
+            os.mkdir(self.node[k])
+            with open(os.path.join(self.node[k], '.verif_node'), 'w') as f:
+                f.write(k + '\n')
+        os.symlink(os.path.join('..', 'real', 'sub'), os.path.join(self.node['O'], 'link'))
+        os.symlink('real', os.path.join(self.node['T'], 'lnreal'))
+        # how the caller enters its own directory
+        self.start = {'T': self.node['T'], 'S_via_link': os.path.join(self.node['T'], 'other', 'link')}
+
+    def cwd_string(self, r):
+        rel = '/'.join(r['comps']) + ('/' if r['slash'] else '')
+        return (self.node['T'] + '/' + rel) if r['abs'] else rel
+
+    def close(self):
+        shutil.rmtree(self.base, ignore_errors=True)
+
+
+def cwd_row(r, world, transports, rec, stats, n=0):
+    """one row of CwdTable: from the caller's directory, launch with cwd=<the path>; the child must be in r['want']"""
+    cwd = world.cwd_string(r)
+    want_dir = world.node[r['want']]
+    here = os.open('.', os.O_RDONLY)
+    saved = os.environ.get('VERIF_PROBE_OUT')
+    try:
+        os.chdir(world.start[r['start']])
+        # binding: the materialised world resolves this path as the model does (the kernel is asked directly)
+        try:
+            kernel = open(os.path.join(cwd, '.verif_node')).read().strip()
+        except OSError as e:
+            kernel = 'OSError: %s' % e
+        if kernel != r['want'] and not r.get('selftest'):
+            raise tlc.TLCError('Launch/cwd: from %s the kernel resolves %r to %s, the model to %s' % (r['start'], cwd, kernel, r['want']))
+        os.environ['VERIF_PROBE_OUT'] = world.out
+        for transport in transports:
+            env = None if n % 2 == 0 else {'VERIF_PROBE_OUT': world.out}
+
+            def once():
+                stats['evaluations'] += 1
+                try:
+                    os.unlink(world.out)
+                except OSError:
+                    pass
+                err = launch_via(transport, world.probe, cwd=cwd, env=env)
+                rep = read_report(world.out)
+                if err is not None:
+                    return {'raised': err}
+                if rep is None:
+                    return {'problem': 'the child ended without reporting'}
+                if rep != [r['want'], want_dir]:
+                    return {'child_is_in': rep[1] if len(rep) > 1 else rep, 'marker_found_there': rep[0] if rep else None}
+                return None
+            bad = stable(once)
+            if bad is not None:
+                bad.update({'cwd_argument': cwd, 'callers_directory': os.getcwd(), 'caller_entered_it_as': world.start[r['start']],
+                            'want_child_in': want_dir, 'world': CwdWorld.LAYOUT + ' (U = %s)' % world.node['U'],
+                            'size': len(cwd)})
+                rec.fail('C13:cwd-path', {'kind': 'cwdpath', 'row': r, 'transport': transport, 'n': n}, detail=bad,
+                         signature={'part': 'cwd-path', 'transport': transport, 'abs': r['abs'], 'start': r['start'],
+                                    'slash': r['slash'], 'textual_normalisation_differs': r['lex'] != r['want']})
+    finally:
+        os.fchdir(here)
+        os.close(here)
+        if saved is None:
+            os.environ.pop('VERIF_PROBE_OUT', None)
+        else:
+            os.environ['VERIF_PROBE_OUT'] = saved
+
+
+# ---------------------------------------------------------------------------------------------
 # TLC
 
 def split_cfg(ctx, name, lenfor, styles, seps, dev='{}'):
@@ -531,32 +967,98 @@ def need_actions(res, names, what):
         raise tlc.TLCError('%s: action(s) never taken: %s (vacuous model), see %s' % (what, ', '.join(missing), res['out']))
 
 
+def hist_cfg(ctx, name, spec, invs, hdirs=2, hnames='{"a", "b"}', hkinds='{"missing", "dir", "file", "exec"}', maxcomps=3, dev='{}'):
+    return tlc.write_cfg(os.path.join(ctx.work, name), spec=spec,
+                         constants=[('LenFor', '<- MCLenTiny'), ('Styles', '<- MCAllStyles'), ('Seps', '<- MCAllSeps'),
+                                    ('Dev', '= ' + dev), ('MaxDirs', '= 1'), ('HNames', '= ' + hnames), ('HDirs', '= %d' % hdirs),
+                                    ('HKinds', '= ' + hkinds), ('MaxComps', '= %d' % maxcomps)], invariants=invs)
+
+
 def model_check(ctx):
-    """runs TLC on the three parts; returns (runs, paths of the split tables, which table, config table)"""
-    runs = []
+    """runs TLC on the parts; returns (runs, paths of the split tables, cases per table, which table, config table,
+    dumped history graphs, cwd table).  The small runs go side by side with the large one (split)."""
     cfg_out = os.path.join(ctx.work, 'config.json')
-    r = need(tlc.run('MCLaunch', 'Launch_config.cfg', ctx.work, workers=2, timeout=300, env={'LAUNCH_CONFIG_OUT': cfg_out},
-                     outname='config.out'), 'Launch/config', cfg_out)
+    which_out = os.path.join(ctx.work, 'which.json')
+    split_out = os.path.join(ctx.work, 'split_quick.json')
+    cwd_out = os.path.join(ctx.work, 'cwd.json')
+    # history worlds: (tag, directories, names, kinds)
+    hist_worlds = [('h2', 2, '{"a", "b"}', '{"missing", "dir", "file", "exec"}' if ctx.quick() else
+                    '{"missing", "dir", "file", "exec", "ln_exec"}'),
+                   ('h3', 3, '{"a"}', '{"missing", "dir", "file", "exec"}')]
+    jobs = collections.OrderedDict()
+    jobs['config'] = lambda: tlc.run('MCLaunch', 'Launch_config.cfg', ctx.work, workers=2, timeout=300, env={'LAUNCH_CONFIG_OUT': cfg_out},
+                                     outname='config.out')
+    jobs['which'] = lambda: tlc.run('MCLaunch', 'Launch_which.cfg', ctx.work, workers=2, timeout=300, coverage=True,
+                                    env={'LAUNCH_WHICH_OUT': which_out}, outname='which.out')
+    jobs['split-asis'] = lambda: tlc.run('MCLaunch', 'Launch_split_asis.cfg', ctx.work, workers=2, timeout=300, outname='asis.out',
+                                         only='RoundTrip')
+    jobs['split-quick'] = lambda: tlc.run('MCLaunch', 'Launch_split_quick.cfg', ctx.work, workers=3, timeout=600, coverage=True,
+                                          env={'LAUNCH_SPLIT_OUT': split_out}, outname='split_quick.out')
+    dots = []
+    for tag, hdirs, hnames, hkinds in hist_worlds:
+        dot = os.path.join(ctx.work, 'hist_%s.dot' % tag)
+        dots.append((tag, dot))
+        cfg = ('LaunchHist_hist.cfg' if (tag == 'h2' and ctx.quick()) else
+               hist_cfg(ctx, 'hist_%s.cfg' % tag, 'HistSpec', HIST_INVS, hdirs, hnames, hkinds))
+        jobs['hist-' + tag] = (lambda cfg=cfg, dot=dot, tag=tag: tlc.run(
+            'MCLaunchHist', cfg, ctx.work, workers=2, timeout=900, coverage=True, extra=['-dump', 'dot,actionlabels', dot],
+            outname='hist_%s.out' % tag))
+    memo_cfg = hist_cfg(ctx, 'hist_memo.cfg', 'HistSpec', HIST_INVS, dev='{"which_memo"}')
+    jobs['hist-memo'] = lambda: tlc.run('MCLaunchHist', memo_cfg, ctx.work, workers=2, timeout=300, outname='hist_memo.out',
+                                        only='HistFirstMatch')
+    maxcomps = 3 if ctx.quick() else 4
+    cwd_cfg = 'LaunchHist_cwd.cfg' if ctx.quick() else hist_cfg(ctx, 'cwd.cfg', 'CwdSpec', CWD_INVS, 1, '{"a"}', '{"missing"}', maxcomps)
+    jobs['cwd'] = lambda: tlc.run('MCLaunchHist', cwd_cfg, ctx.work, workers=2, timeout=900, coverage=True,
+                                  env={'LAUNCH_CWD_OUT': cwd_out}, outname='cwd.out')
+    lex_cfg = hist_cfg(ctx, 'cwd_lexical.cfg', 'CwdSpec', CWD_INVS, 1, '{"a"}', '{"missing"}', 3, dev='{"cwd_lexical"}')
+    jobs['cwd-lexical'] = lambda: tlc.run('MCLaunchHist', lex_cfg, ctx.work, workers=2, timeout=300, outname='cwd_lexical.out',
+                                          only='CwdAsRequested')
+    with ThreadPoolExecutor(max_workers=len(jobs)) as ex:
+        futs = [(name, ex.submit(fn)) for name, fn in jobs.items()]
+        done = collections.OrderedDict((name, f.result()) for name, f in futs)
+    runs = []
+
+    r = need(done['config'], 'Launch/config', cfg_out)
     runs.append(('config', r))
     ctx.note('TLC ConfigSpec: %d rows, invariants DefaultDims Independent hold (%.0fs)' % (r['distinct'], r['wall_s']))
-    which_out = os.path.join(ctx.work, 'which.json')
-    r = need(tlc.run('MCLaunch', 'Launch_which.cfg', ctx.work, workers=2, timeout=300, coverage=True,
-                     env={'LAUNCH_WHICH_OUT': which_out}, outname='which.out'), 'Launch/which', which_out)
+    r = need(done['which'], 'Launch/which', which_out)
     need_actions(r, WHICH_ACTIONS, 'Launch/which')
     runs.append(('which', r))
     ctx.note('TLC WhichSpec: %d states, %d transitions, invariants WhichFirstMatch EnvPathWins DefaultOnlyWhenNoPath '
              'OnlyExecutables NothingEarlier hold (%.0fs)' % (r['distinct'], r['generated'], r['wall_s']))
     # model sensitivity: the splitter as it is upstream (starts inside an argument) must break RoundTrip
-    r = tlc.run('MCLaunch', 'Launch_split_asis.cfg', ctx.work, workers=2, timeout=300, outname='asis.out', only='RoundTrip')
+    r = done['split-asis']
     if r['violated'] != 'RoundTrip':
         raise tlc.TLCError('Launch/split: with deviation leading_ws TLC did not refute RoundTrip (%s), see %s' % (r['violated'], r['out']))
     runs.append(('split-asis', r))
     ctx.note('model sensitivity: with Dev={"leading_ws"} (initial state "basic", as upstream) TLC refutes RoundTrip')
+    # the history part: the dumped graphs are replayed below
+    for tag, dot in dots:
+        r = need(done['hist-' + tag], 'Launch/history ' + tag, dot)
+        need_actions(r, HIST_ACTIONS, 'Launch/history ' + tag)
+        runs.append(('hist-' + tag, r))
+        ctx.note('TLC HistSpec %s: %d states, %d transitions (Mutate %d, Lookup %d), invariants %s hold (%.0fs)' % (
+            tag, r['distinct'], r['generated'], r['coverage']['Mutate'][1], r['coverage']['Lookup'][1], ' '.join(HIST_INVS), r['wall_s']))
+    r = done['hist-memo']
+    if r['violated'] != 'HistFirstMatch':
+        raise tlc.TLCError('Launch/history: with deviation which_memo TLC did not refute HistFirstMatch (%s), see %s' % (r['violated'], r['out']))
+    runs.append(('hist-memo', r))
+    ctx.note('model sensitivity: with Dev={"which_memo"} (the previous answer is returned while it still is an executable) TLC refutes '
+             'HistFirstMatch')
+    r = need(done['cwd'], 'Launch/cwd', cwd_out)
+    need_actions(r, CWD_ACTIONS, 'Launch/cwd')
+    runs.append(('cwd', r))
+    ctx.note('TLC CwdSpec paths of 1..%d components: %d states, invariants %s hold (%.0fs)' % (
+        maxcomps, r['distinct'], ' '.join(CWD_INVS), r['wall_s']))
+    r = done['cwd-lexical']
+    if r['violated'] != 'CwdAsRequested':
+        raise tlc.TLCError('Launch/cwd: with deviation cwd_lexical TLC did not refute CwdAsRequested (%s), see %s' % (r['violated'], r['out']))
+    runs.append(('cwd-lexical', r))
+    ctx.note('model sensitivity: with Dev={"cwd_lexical"} (x/.. collapsed textually before the kernel sees the path) TLC refutes CwdAsRequested')
     # the quick bound, with coverage (vacuity guard) - both tiers
     split_outs = []
-    out = os.path.join(ctx.work, 'split_quick.json')
-    r = need(tlc.run('MCLaunch', 'Launch_split_quick.cfg', ctx.work, workers=3, timeout=600, coverage=True,
-                     env={'LAUNCH_SPLIT_OUT': out}, outname='split_quick.out'), 'Launch/split quick', out)
+    out = split_out
+    r = need(done['split-quick'], 'Launch/split quick', out)
     need_actions(r, SPLIT_ACTIONS, 'Launch/split')
     runs.append(('split-quick', r))
     ctx.note('TLC SplitSpec LenFor=<<2,2,1>>: %d states, %d cases (Finish transitions), invariants %s hold (%.0fs)' % (
@@ -585,7 +1087,7 @@ def model_check(ctx):
                 ncases[o] = None
         tot = sum(r['distinct'] for n, r in runs if n.startswith('split-') and n not in ('split-asis', 'split-quick'))
         ctx.note('TLC SplitSpec LenFor=<<2,2,2>> in 9 partitions: %d states, invariants hold' % tot)
-    return runs, split_outs, ncases, json.load(open(which_out)), json.load(open(cfg_out))
+    return runs, split_outs, ncases, json.load(open(which_out)), json.load(open(cfg_out)), dots, json.load(open(cwd_out))
 
 
 # ---------------------------------------------------------------------------------------------
@@ -642,7 +1144,7 @@ def blind(cands, run, corrupt, clause, limit=8):
     return 'skipped'
 
 
-def self_test(ctx, sample, which_table, config_table, abench, cbench):
+def self_test(ctx, sample, which_table, config_table, abench, cbench, walks, cwd_table, cworld):
     """a wrong expectation in each table must be noticed by the same test functions"""
     def bad_split(r):
         b = dict(r)
@@ -689,6 +1191,38 @@ def self_test(ctx, sample, which_table, config_table, abench, cbench):
     for clause in ('C13:cwd', 'C13:env', 'C13:winsize', 'C13:echo', 'C13:sighup'):
         verdicts[clause] = blind(configs, run_config, bad_config, clause)
     shutil.rmtree(tree, ignore_errors=True)
+
+    # history: a walk cut after a lookup that finds something, with that lookup's expected directory changed
+    def hist_cands(via):
+        out = []
+        for w in walks:
+            for i, s_ in enumerate(w['steps']):
+                if s_['op'] == 'lookup' and s_['via'] == via and s_['want'] > 0:
+                    out.append(dict(w, steps=w['steps'][:i + 1]))
+                    break
+            if len(out) >= 8:
+                break
+        return out
+
+    def bad_hist(w):
+        b = json.loads(json.dumps(w))
+        last = b['steps'][-1]
+        last['want'] = last['want'] % w['ndirs'] + 1          # another directory of the PATH
+        return b
+    verdicts['C13:which-history'] = blind(
+        hist_cands('which'), lambda w: clauses_failing(lambda rec: hist_walk(w, rec, new_stats())), bad_hist, 'C13:which-history')
+    verdicts['C13:which-history-child'] = blind(
+        hist_cands('spawn') + hist_cands('run'), lambda w: clauses_failing(lambda rec: hist_walk(w, rec, new_stats())), bad_hist,
+        'C13:which-history-child')
+
+    def bad_cwd(r):
+        b = dict(r)
+        b['want'] = r['lex']                 # claim the textually normalised directory
+        b['selftest'] = True
+        return b
+    cwds = [r for r in cwd_table if r['lex'] != r['want'] and r['lex'] in cworld.node]
+    verdicts['C13:cwd-path'] = blind(
+        cwds, lambda r: clauses_failing(lambda rec: cwd_row(r, cworld, ('spawn',), rec, new_stats())), bad_cwd, 'C13:cwd-path')
     blinds = [c for c, v in verdicts.items() if v == 'blind']
     if blinds:
         raise tlc.TLCError('C13 self-test: a corrupted expectation was accepted for %s' % ', '.join(blinds))
@@ -713,6 +1247,14 @@ def replay(ctx):
         which_row(c['row'], os.path.join(ctx.work, 'tree'), rec, st, transports=tuple(c.get('transports', ())))
     elif c['kind'] == 'config':
         config_row(c['row'], ConfigBench(ctx.work), rec, st, ctx)
+    elif c['kind'] == 'whichhist':
+        hist_walk(c['walk'], rec, st)
+    elif c['kind'] == 'cwdpath':
+        world = CwdWorld()
+        try:
+            cwd_row(c['row'], world, (c['transport'],), rec, st, c.get('n', 0))
+        finally:
+            world.close()
     else:
         raise tlc.TLCError('unknown replay kind %r' % c['kind'])
     rec.flush()
@@ -735,7 +1277,7 @@ def run(ctx):
     prepare_process()
     os.chdir(ctx.work)
     t0 = time.time()
-    runs, split_outs, ncases, which_table, config_table = model_check(ctx)
+    runs, split_outs, ncases, which_table, config_table, hist_dots, cwd_table = model_check(ctx)
     t_tlc = time.time() - t0
     rec = Rec(ctx)
     rng = random.Random(ctx.seed * 1009 + 13)
@@ -813,8 +1355,61 @@ def run(ctx):
     ctx.note('config: %d rows, %d real launches, %d clause failures; preexec_fn effect missing (not part of the property): %d (%.0fs)' % (
         len(config_table), st_cfg['evaluations'], fails_cfg, ctx.drift, t_cfg))
 
-    # (d) binding self-test
-    self_test(ctx, sample, which_table, config_table, abench, cbench)
+    # (d) lookups over a history: walks over TLC's state graph, replayed in this process
+    t0 = time.time()
+    st_hist = new_stats()
+    hist_facts = []
+    hist_walk_list = []
+    nsteps = nlook = nlaunch = 0
+    for k, (tag, dot) in enumerate(hist_dots):
+        hrng = random.Random(ctx.seed * 1009 + 131 + k)
+        budget = (240 if tag == 'h2' else 60) if ctx.quick() else 4000
+        walks, facts = hist_walks(dot, hrng, budget, maxlen=120)
+        facts['tag'] = tag
+        facts['walks'] = len(walks)
+        hist_facts.append(facts)
+        for w in walks:
+            hist_walk(w, rec, st_hist)
+            nsteps += len(w['steps'])
+            nlook += sum(1 for s_ in w['steps'] if s_['op'] == 'lookup' and s_['via'] == 'which')
+            nlaunch += sum(1 for s_ in w['steps'] if s_['op'] == 'lookup' and s_['via'] != 'which')
+        hist_walk_list += walks
+    t_hist = time.time() - t0
+    fails_hist = rec.total() - fails_split - fails_argv - fails_which - fails_cfg
+    ctx.note('which over a history: %s; %d walks (each on a tree and PATH string of its own, PATH by env argument / os.environ in turn), '
+             '%d steps: %d changes of the tree (entry appears / disappears / chmod +-x / becomes a directory), %d lookups by which() '
+             '(every Lookup transition), %d lookups by launching (spawn, run, PopenSpawn in turn; the child names the file it is); '
+             '%d disagree (%.0fs)' % (
+                 '; '.join('%s: %d PATH directories, names %s, %d Lookup transitions (%d where the answer changed since the previous '
+                           'lookup of that name)' % (f['tag'], f['ndirs'], '/'.join(f['names']), f['lookup_transitions'], f['answer_changed'])
+                           for f in hist_facts), len(hist_walk_list), nsteps, nsteps - nlook - nlaunch, nlook, nlaunch, fails_hist, t_hist))
+
+    # (e) the cwd argument as a path
+    t0 = time.time()
+    st_cwd = new_stats()
+    cworld = CwdWorld()
+    try:
+        crng = random.Random(ctx.seed * 1009 + 137)
+        ndiff = 0
+        for n, r in enumerate(cwd_table):
+            differs = r['lex'] != r['want']
+            ndiff += differs
+            if ctx.quick() and not differs:
+                tr = (HIST_VIAS[crng.randrange(3)],)          # one transport, drawn per row
+            else:
+                tr = HIST_VIAS                                # all three
+            cwd_row(r, cworld, tr, rec, st_cwd, n)
+        t_cwd = time.time() - t0
+        fails_cwd = rec.total() - fails_split - fails_argv - fails_which - fails_cfg - fails_hist
+        ctx.note('cwd as a path: %d paths that name a directory (relative and absolute, 1..%d components over real/sub/other/link/lnreal/../. , '
+                 'with and without trailing slash, caller in top or in real/sub entered through other/link; %d of them lead elsewhere when '
+                 'normalised textually), each resolved by the kernel as by the model; %d launches (spawn, run, PopenSpawn), %d disagree (%.0fs)' % (
+                     len(cwd_table), max(len(r['comps']) for r in cwd_table), ndiff, st_cwd['evaluations'], fails_cwd, t_cwd))
+
+        # (f) binding self-test
+        self_test(ctx, sample, which_table, config_table, abench, cbench, hist_walk_list, cwd_table, cworld)
+    finally:
+        cworld.close()
 
     rec.flush()
     if rec.total() > len(ctx.failures):
@@ -823,23 +1418,31 @@ def run(ctx):
         for (clause, sig), n in sorted(rec.totals.items()):
             ctx.note('  %s %s: %d' % (clause, sig, n))
     status, nviol, nknown = common.conclude(ctx)
-    evaluations = sum(s['evaluations'] for s in (st_split, st_argv, st_which, st_cfg))
+    evaluations = sum(s['evaluations'] for s in (st_split, st_argv, st_which, st_cfg, st_hist, st_cwd))
     evidence.write('C13', ctx.tier, ctx.seed, 'model_checking', {
         'states': sum(r['distinct'] for _, r in runs), 'transitions': sum(r['generated'] for _, r in runs),
-        'traces_validated_against_impl': nrows + len(which_table) + len(config_table),
-        'samples': first_rows + [which_table[len(which_table) // 2], config_table[len(config_table) // 2]],
+        'traces_validated_against_impl': nrows + len(which_table) + len(config_table) + len(hist_walk_list) + len(cwd_table),
+        'samples': first_rows + [which_table[len(which_table) // 2], config_table[len(config_table) // 2],
+                                 {'history_walk': hist_text(hist_walk_list[len(hist_walk_list) // 2]['steps'][:40])},
+                                 cwd_table[len(cwd_table) // 2]],
         'evaluations': evaluations, 'distinct_nontrivial': nprot,
         'rule': 'one implementation test per TLC-emitted row: every split case on split_command_line under two sets of '
                 'representative characters, a seeded sample through real pty / popen children; every PATH layout on which() '
-                'and through real children; every configuration row through a real child.  non-trivial = distinct command '
+                'and through real children; every configuration row through a real child; every Lookup transition of the dumped '
+                'history graphs (layout x previous answers x name) on which() inside walks replayed in one process, a seeded sample '
+                'of them through spawn / run / PopenSpawn; every cwd path of the table through a real child (quick: one transport '
+                'per path, all three where textual normalisation would lead elsewhere).  non-trivial = distinct command '
                 'lines of split cases in which some argument contains a character that needs protection (whitespace, '
                 'quote, backslash)',
         'exhaustive': True,
         'split_cases': nrows, 'split_calls': st_split['evaluations'], 'argv_children': st_argv['evaluations'],
         'which_layouts': len(which_table), 'which_tests': st_which['evaluations'], 'config_rows': len(config_table),
         'config_children': st_cfg['evaluations'], 'failing_tests_total': rec.total(),
+        'history_graphs': hist_facts, 'history_walks': len(hist_walk_list), 'history_steps': nsteps, 'history_which_lookups': nlook,
+        'history_launch_lookups': nlaunch, 'history_tests': st_hist['evaluations'],
+        'cwd_paths': len(cwd_table), 'cwd_paths_textual_normalisation_differs': ndiff, 'cwd_children': st_cwd['evaluations'],
         'wall_s_parts': {'tlc': round(t_tlc, 1), 'split': round(t_split, 1), 'argv': round(t_argv, 1), 'which': round(t_which, 1),
-                         'config': round(t_cfg, 1)},
+                         'config': round(t_cfg, 1), 'history': round(t_hist, 1), 'cwd': round(t_cwd, 1)},
         'checker_cmd': ' ; '.join(r['cmd'] for _, r in runs), 'known_findings_hit': nknown, 'spec_drift': ctx.drift,
     }, assumptions=[
         'characters are represented by their class (ordinary ASCII, space, tab, the two quotes, backslash, non-ASCII letter); two '
@@ -850,5 +1453,13 @@ def run(ctx):
         'where X_OK needs an execute bit',
         'PopenSpawn resolves the program with subprocess (no which()); it is compared only where PATH is set and the name is bare',
         'ignore_sighup=False is checked with the harness itself holding the default SIGHUP disposition',
+        'history: the PATH has 2 directories x 2 names (3 directories x 1 name in a second graph), entries are missing / directory / '
+        'non-executable file / executable file (thorough: also a symbolic link to an executable); PATH directories themselves stay; '
+        'each walk (<= ~120 steps) starts with nothing looked up on a fresh temporary tree, so that its replay file reproduces in a '
+        'fresh process; pexpect.run() is launched with a spawn subclass whose close() waits for the child instead of pausing 0.1 s',
+        'cwd: one world (top, top/real, top/real/sub, top/other, other/link -> ../real/sub, lnreal -> real) in a fresh temporary '
+        'directory; paths that name no directory of the world are not launched (the property says nothing about them); the kernel is '
+        'asked for every path and must agree with the model (else machinery failure); the property text does not say when cwd is '
+        'resolved, so only launches at construction time are checked',
     ], wall_s=ctx.wall(), violations=(rec.total() - nknown) if nviol else 0)
     return status
